@@ -90,6 +90,17 @@ func c12Scenarios(tier string) []*Scenario {
 				}
 				sc2.Check = func(w *World) []Violation { return c12Check(w, deps) }
 				scs = append(scs, sc2)
+				// variant: the leaf dependent was restarted by hand earlier (an older instance of it has ended)
+				leafKey := key0(leaf)
+				again := func(w *World) bool { return w.launches[leafKey] >= 2 && allUp(w) }
+				sc4 := &Scenario{
+					ID:   fmt.Sprintf("c12-%s-restarted[%s]", sh.id, leaf),
+					YAML: yaml, Procs: procs, K: 1, Ordered: true, TickBudget: 2,
+					API:      [][]APICall{{{Op: "restart", Name: leaf, When: allUp}, {Op: "shutdown", When: again}}},
+					MapSites: sc.MapSites,
+				}
+				sc4.Check = func(w *World) []Violation { return c12Check(w, deps) }
+				scs = append(scs, sc4)
 				// variant: the leaf dependent is disabled in the configuration and was started by hand
 				nodes3 := append([]GNode{}, nodes...)
 				nodes3[n-1].Disabled = true
